@@ -301,6 +301,20 @@ pub fn units() -> Vec<Unit> {
             ],
         },
         Unit {
+            name: "ifdef",
+            toggles: vec![],
+            has_tests: false,
+            slots: vec![Slot {
+                path: "src/ifdef_m.veryl",
+                variants: vec![
+                    "module IfdefM (\n    i: input  logic,\n    o: output logic,\n) {\n    #[ifdef(DEF_A)]\n    assign o = i;\n    #[else]\n    assign o = ~i;\n}\n",
+                    "module IfdefM (\n    i: input  logic,\n    o: output logic,\n) {\n    #[ifndef(DEF_A)]\n    assign o = i;\n    #[else]\n    assign o = ~i;\n}\n",
+                    "module IfdefM (\n    i: input  logic,\n    o: output logic,\n) {\n    #[ifdef(DEF_A)]\n    let unused_a: logic = i;\n    assign o = i;\n}\n",
+                    "module IfdefM (\n    i: input  logic,\n    o: output logic,\n) {\n    assign o = i;\n}\n",
+                ],
+            }],
+        },
+        Unit {
             name: "tests",
             toggles: vec![],
             has_tests: true,
